@@ -28,122 +28,206 @@ func init() {
 var c20Mutators = map[string]bool{"StartAsync": true, "Start": true, "Stop": true, "Retry": true, "Restart": true, "UpdateStatus": true, "UpdateDAG": true,
 	"Rename": true, "ToggleSuspend": true, "DeleteDAG": true, "CreateDAG": true}
 
+// boundLit is a literal together with the binding of a predicate's parameters
+// to the arguments of the call it was taken from.
+type boundLit struct {
+	L    ir.NLit
+	Bind map[ssa.Value]ssa.Value
+}
+
+// predLits returns the literals and, for every literal that is a call of a
+// one-expression predicate of the repository (`func isRunning(s *T) bool {
+// return s.Status.Status == running }`, called from any number of places), the
+// predicate's own comparison with its parameters bound to the call's arguments.
+func (e *Env) predLits(lits []ir.NLit) []boundLit {
+	var out []boundLit
+	for _, l := range lits {
+		out = append(out, boundLit{L: l})
+		if l.Kind != "val" {
+			continue
+		}
+		c, ok := ir.Resolve(l.V).(*ssa.Call)
+		if !ok {
+			continue
+		}
+		h := c.Call.StaticCallee()
+		if h == nil || !e.P.Funcs[h] || len(h.Blocks) != 1 {
+			continue
+		}
+		rt, isR := h.Blocks[0].Instrs[len(h.Blocks[0].Instrs)-1].(*ssa.Return)
+		if !isR || len(rt.Results) != 1 {
+			continue
+		}
+		bind := map[ssa.Value]ssa.Value{}
+		for i, p := range h.Params {
+			if i < len(c.Call.Args) {
+				bind[p] = c.Call.Args[i]
+			}
+		}
+		out = append(out, boundLit{L: ir.Normalize(ir.Lit{Cond: rt.Results[0], Pol: l.Pol}), Bind: bind})
+	}
+	return out
+}
+
 func runC20(e *Env) {
 	r := e.R
 	c11ParamFlow(e) // "a start passes the given parameters through unchanged"
-	pa := e.Fn(feDagRel, "(*Handler).postAction")
-	pu := e.Fn(feDagRel, "(*Handler).processUpdateStatus")
-	if pa == nil || pu == nil {
+	fp := e.P.Pkg(feDagRel)
+	if fp == nil {
+		r.Unknown("API handler package", feDagRel, "not loaded")
 		return
+	}
+	var fns []*ssa.Function
+	for _, f := range e.RepoFuncsSorted() {
+		if rootFn(f).Package() == fp {
+			fns = append(fns, f)
+		}
 	}
 	_, ss := e.EnumOf(schedRel, "Status")
 	running := ConstVal(ss, "StatusRunning")
 	clientCall := func(c *ssa.CallCommon, name string) bool {
 		return c.IsInvoke() && c.Method.Name() == name && strings.HasSuffix(ir.NamedType(c.Value.Type()), "internal/client.Client")
 	}
-	// dagStatus in postAction: result of client.GetStatus(params.DagID)
-	isLatest := func(root ssa.Value) bool {
+	sitesOf := func(names ...string) []ssa.CallInstruction {
+		var out []ssa.CallInstruction
+		for _, f := range fns {
+			out = append(out, ir.CallsIn(f, func(c *ssa.CallCommon) bool {
+				for _, n := range names {
+					if clientCall(c, n) {
+						return true
+					}
+				}
+				return false
+			})...)
+		}
+		return out
+	}
+	// the DAG's latest status: the result of client.GetStatus(params.DagID), wherever
+	// it is handed to (parameters of single-call-site helpers stand for their arguments)
+	var isLatestD func(root ssa.Value, depth int) bool
+	isLatestD = func(root ssa.Value, depth int) bool {
+		root = ir.Deep(root)
+		// a parameter of a helper called from several places: at every one of them
+		if p, isP := root.(*ssa.Parameter); isP && depth < 3 {
+			sites := e.StaticCallSites(p.Parent())
+			idx := -1
+			for i, q := range p.Parent().Params {
+				if q == p {
+					idx = i
+				}
+			}
+			if len(sites) == 0 || idx < 0 {
+				return false
+			}
+			for _, cs := range sites {
+				if idx >= len(cs.Common().Args) || !isLatestD(cs.Common().Args[idx], depth+1) {
+					return false
+				}
+			}
+			return true
+		}
 		fl := &ir.Flow{C: e.C, Source: func(v ssa.Value) bool {
 			c, ok := v.(*ssa.Call)
 			return ok && clientCall(&c.Call, "GetStatus")
 		}}
 		return fl.Any(root)
 	}
-	statusCmp := func(lits []ir.NLit, op token.Token, isRoot func(ssa.Value) bool) bool {
-		for _, l := range lits {
-			if l.Kind == "cmp" && l.Op == op {
-				if k, ok := ir.ConstInt(l.Y); ok && k == running {
-					if p, okp := e.C.PathOf(l.X); okp && p.Dotted() == "Status.Status" && isRoot(p.Root) {
-						return true
+	isLatest := func(root ssa.Value) bool { return isLatestD(root, 0) }
+	statusCmp := func(lits []ir.NLit, op token.Token) bool {
+		for _, alt := range e.expandHelperCalls(lits, 0) {
+			found := false
+			for _, bl := range e.predLits(alt) {
+				l := bl.L
+				if l.Kind == "cmp" && l.Op == op {
+					if k, ok := ir.ConstInt(l.Y); ok && k == running {
+						if p, okp := e.C.PathOf(l.X); okp && p.Dotted() == "Status.Status" {
+							root := ir.Resolve(p.Root)
+							if b, bound := bl.Bind[root]; bound {
+								root = b
+							}
+							if isLatest(root) {
+								found = true
+							}
+						}
 					}
 				}
 			}
+			if !found {
+				return false
+			}
 		}
-		return false
+		return true
 	}
 	r.Rule("C20.guards", "DCS", "start / stop / edit guarded by the DAG's latest status", 3)
-	nStart, nStop := 0, 0
-	for _, ci := range ir.CallsIn(pa, func(c *ssa.CallCommon) bool { return clientCall(c, "StartAsync") || clientCall(c, "Start") }) {
-		nStart++
+	starts, stops, edits := sitesOf("StartAsync", "Start"), sitesOf("Stop"), sitesOf("UpdateStatus")
+	for _, ci := range starts {
 		lits := e.DCS(ci)
-		r.Check(statusCmp(lits, token.NEQ, isLatest), "postAction start: only under latest status != running", e.InstrPos(ci),
+		r.Check(statusCmp(lits, token.NEQ), "postAction start: only under latest status != running", e.InstrPos(ci),
 			"a start is issued through the API although the DAG is (or may be) running", e.FactsStr("dominating conditions: ", lits))
 	}
-	for _, ci := range ir.CallsIn(pa, func(c *ssa.CallCommon) bool { return clientCall(c, "Stop") }) {
-		nStop++
+	for _, ci := range stops {
 		lits := e.DCS(ci)
-		r.Check(statusCmp(lits, token.EQL, isLatest), "postAction stop: only under latest status == running", e.InstrPos(ci),
+		r.Check(statusCmp(lits, token.EQL), "postAction stop: only under latest status == running", e.InstrPos(ci),
 			"a stop is issued through the API although the DAG is not running", e.FactsStr("dominating conditions: ", lits))
 	}
-	if nStart == 0 || nStop == 0 {
-		r.Unknown("postAction: start / stop sites", e.Pos(pa.Pos()), sprintf("start=%d stop=%d", nStart, nStop))
+	if len(starts) == 0 || len(stops) == 0 {
+		r.Unknown("postAction: start / stop sites", feDagRel, sprintf("start=%d stop=%d", len(starts), len(stops)))
 	}
-	// processUpdateStatus is called with the latest status
-	var dagStatusParam *ssa.Parameter
-	for _, p := range pu.Params {
-		if strings.HasSuffix(ir.NamedType(p.Type()), "client.DAGStatus") {
-			dagStatusParam = p
-		}
-	}
-	okArgs := dagStatusParam != nil
-	for _, ci := range e.StaticCallSites(pu) {
-		idx := -1
-		for i, p := range pu.Params {
-			if p == dagStatusParam {
-				idx = i
-			}
-		}
-		if idx < 0 || !isLatest(ci.Common().Args[idx]) {
-			okArgs = false
-		}
-	}
-	r.Check(okArgs, "postAction mark-*: processUpdateStatus receives the DAG's latest status", e.Pos(pu.Pos()), "the status edit is not guarded by the DAG's latest (live or persisted) status")
-	isParamRoot := func(root ssa.Value) bool { return ir.Resolve(root) == ssa.Value(dagStatusParam) }
-	nEdit := 0
-	for _, ci := range ir.CallsIn(pu, func(c *ssa.CallCommon) bool { return clientCall(c, "UpdateStatus") }) {
-		nEdit++
+	for _, ci := range edits {
 		lits := e.DCS(ci)
-		r.Check(statusCmp(lits, token.NEQ, isParamRoot), "status edit: only under latest status != running", e.InstrPos(ci),
+		r.Check(statusCmp(lits, token.NEQ), "status edit: only under latest status != running", e.InstrPos(ci),
 			"a manual status edit is accepted while the DAG is running (the guard is missing or tests the addressed run instead of the DAG's latest status — an older run is never `running` once corrected)", e.FactsStr("dominating conditions: ", lits))
 		nonEmpty := func(field string) bool {
-			for _, l := range lits {
-				if l.Kind == "cmp" && l.Op == token.NEQ && e.IsFieldRead(l.X, nil, field) {
-					if s, ok := ir.ConstString(l.Y); ok && s == "" {
-						return true
+			for _, alt := range e.expandHelperCalls(lits, 0) {
+				found := false
+				for _, l := range alt {
+					if l.Kind == "cmp" && l.Op == token.NEQ && e.IsFieldRead(l.X, nil, field) {
+						if s, ok := ir.ConstString(l.Y); ok && s == "" {
+							found = true
+						}
 					}
 				}
+				if !found {
+					return false
+				}
 			}
-			return false
+			return true
 		}
 		r.Check(nonEmpty("Body.RequestID") && nonEmpty("Body.Step"), "status edit: request id and step are non-empty", e.InstrPos(ci),
 			"a status edit without request id or step name is not refused", e.FactsStr("dominating conditions: ", lits))
 	}
-	if nEdit == 0 {
-		r.Unknown("status edit: UpdateStatus site", e.Pos(pu.Pos()), "not found")
+	if len(edits) == 0 {
+		r.Unknown("status edit: UpdateStatus site", feDagRel, "not found")
 	}
 
 	r.Rule("C20.refusal-is-pure", "MPT", "no mutating call before a refusal", 3)
+	// a refusal: a return whose error answer is not nil (and not the mutating call's own error)
 	isRefusal := func(in ssa.Instruction, own ssa.Value) bool {
 		rt, ok := in.(*ssa.Return)
 		if !ok || len(rt.Results) != 2 {
 			return false
 		}
 		for _, v := range RetVals(rt, 1) {
-			c, isC := ir.Resolve(v).(*ssa.Call)
-			if !isC || c.Call.StaticCallee() == nil || c.Call.StaticCallee().Name() != "newBadRequestError" {
+			if ir.IsNilConst(ir.Resolve(v)) {
 				continue
 			}
 			// exempt: the refusal reports the mutating call's own error
 			for _, l := range e.DCS(rt) {
-				if l.Kind == "cmp" && l.Op == token.NEQ && ir.IsNilConst(l.Y) && ir.Resolve(l.X) == own {
-					return false
+				if l.Kind == "cmp" && l.Op == token.NEQ && ir.IsNilConst(l.Y) && own != nil {
+					x := ir.Resolve(l.X)
+					if ex, isE := x.(*ssa.Extract); isE {
+						x = ex.Tuple
+					}
+					if x == own {
+						return false
+					}
 				}
 			}
 			return true
 		}
 		return false
 	}
-	for _, f := range []*ssa.Function{pa, pu} {
+	for _, f := range fns {
 		for _, ci := range ir.CallsIn(f, func(c *ssa.CallCommon) bool {
 			return c.IsInvoke() && c20Mutators[c.Method.Name()] && strings.HasSuffix(ir.NamedType(c.Value.Type()), "internal/client.Client")
 		}) {
@@ -160,19 +244,20 @@ func runC20(e *Env) {
 	r.Rule("C20.edit-footprint", "WMW/VF", "the edit changes exactly Nodes[i].Status/StatusText of the addressed run", 3)
 	// the edited object: result of GetStatusByRequestID(dagStatus.DAG, body.RequestID)
 	var edited ssa.Value
-	for _, ci := range ir.CallsIn(pu, func(c *ssa.CallCommon) bool { return clientCall(c, "GetStatusByRequestID") }) {
+	var pu *ssa.Function
+	for _, ci := range sitesOf("GetStatusByRequestID") {
 		if e.IsFieldRead(ci.Common().Args[1], nil, "Body.RequestID") {
 			if v, ok := ci.(ssa.Value); ok {
 				for _, ref := range *v.Referrers() {
 					if ex, isE := ref.(*ssa.Extract); isE && ex.Index == 0 {
-						edited = ex
+						edited, pu = ex, ci.Parent()
 					}
 				}
 			}
 		}
 	}
 	if edited == nil {
-		r.Bad("status edit: run read by GetStatusByRequestID(body.RequestID)", e.Pos(pu.Pos()), "the edited run is not the one addressed by the request id")
+		r.Bad("status edit: run read by GetStatusByRequestID(body.RequestID)", feDagRel, "the edited run is not the one addressed by the request id")
 		return
 	}
 	var toParam ssa.Value
@@ -199,7 +284,7 @@ func runC20(e *Env) {
 			field := ir.FieldNameOf(fa.X.Type(), fa.Field)
 			okField := (field == "Status" || field == "StatusText") && strings.HasSuffix(ir.NamedType(fa.X.Type()), "model.Node")
 			okIdx := false
-			// fa.X = *(&edited.Nodes[idx]) ; idx phi set only under name match
+			// fa.X = *(&edited.Nodes[idx]) ; idx set only under the name match
 			if u, isU := fa.X.(*ssa.UnOp); isU {
 				if ia, isIA := u.X.(*ssa.IndexAddr); isIA && e.IsFieldRead(ia.X, nil, "Nodes") {
 					okIdx = c20IndexUnderNameMatch(e, ia.Index)
@@ -222,46 +307,62 @@ func runC20(e *Env) {
 	}
 
 	r.Rule("C20.unknown-action", "DCS", "unknown action: no client call besides the status read", 1)
-	// the default branch: returns newBadRequestError with "invalid action"
+	// the default branch: answers "invalid action"
 	n := 0
-	for _, b := range pa.Blocks {
-		for _, in := range b.Instrs {
-			c, ok := in.(*ssa.Call)
-			if !ok || !ir.IsCallTo(&c.Call, "fmt.Errorf") {
-				continue
-			}
-			if s, _ := ir.ConstString(c.Call.Args[0]); !strings.HasPrefix(s, "invalid action") {
-				continue
-			}
-			n++
-			// no mutating client call dominates or is in this block
-			okPure := true
-			for _, ci := range ir.CallsIn(pa, func(cc *ssa.CallCommon) bool { return cc.IsInvoke() && c20Mutators[cc.Method.Name()] }) {
-				if ir.Precedes(ci, c) {
-					okPure = false
+	reachesMutator := func(c *ssa.CallCommon) bool {
+		if c.IsInvoke() {
+			return c20Mutators[c.Method.Name()] && strings.HasSuffix(ir.NamedType(c.Value.Type()), "internal/client.Client")
+		}
+		g := c.StaticCallee()
+		return g != nil && rootFn(g).Package() == fp && e.ReachesRepo(g, func(x *ssa.Function) bool {
+			return len(ir.CallsIn(x, func(cc *ssa.CallCommon) bool {
+				return cc.IsInvoke() && c20Mutators[cc.Method.Name()] && strings.HasSuffix(ir.NamedType(cc.Value.Type()), "internal/client.Client")
+			})) > 0
+		})
+	}
+	for _, pa := range fns {
+		for _, b := range pa.Blocks {
+			for _, in := range b.Instrs {
+				c, ok := in.(*ssa.Call)
+				if !ok || !ir.IsCallTo(&c.Call, "fmt.Errorf") {
+					continue
 				}
-			}
-			// all action comparisons are false here
-			lits := e.DCS(c)
-			nNeg := 0
-			for _, l := range lits {
-				if l.Kind == "cmp" && l.Op == token.NEQ {
-					if _, isS := ir.ConstString(l.Y); isS {
-						nNeg++
+				if s, _ := ir.ConstString(c.Call.Args[0]); !strings.HasPrefix(s, "invalid action") {
+					continue
+				}
+				n++
+				// the refusal cannot be reached after a mutating call (made here or by a helper)
+				okPure := true
+				for _, ci := range ir.CallsIn(pa, reachesMutator) {
+					bad, _ := ir.Bypass(ci, nil, ir.PathQuery{Bad: func(x ssa.Instruction) bool { return x == ssa.Instruction(c) }})
+					if bad != nil {
+						okPure = false
 					}
 				}
+				// no known action matched: every comparison of the action with a name is negative here
+				lits := e.DCS(c)
+				nNeg, nPos := 0, 0
+				for _, l := range lits {
+					if l.Kind == "cmp" {
+						if _, isS := ir.ConstString(l.Y); isS {
+							if l.Op == token.NEQ {
+								nNeg++
+							} else if l.Op == token.EQL {
+								nPos++
+							}
+						}
+					}
+				}
+				r.Check(okPure && nNeg >= 1 && nPos == 0, "postAction default: reached only when no known action matched, without side effects", e.InstrPos(c),
+					"the unknown-action refusal is reachable after a known action's effect, or known actions fall through to it", e.FactsStr("dominating conditions: ", lits))
 			}
-			r.Check(okPure && nNeg >= 8, "postAction default: reached only when no known action matched, without side effects", e.InstrPos(c),
-				"the unknown-action refusal is reachable after a known action's effect, or known actions fall through to it", e.FactsStr("dominating conditions: ", lits))
 		}
 	}
 	if n == 0 {
-		r.Unknown("postAction: unknown-action refusal", e.Pos(pa.Pos()), "not found")
+		r.Unknown("postAction: unknown-action refusal", feDagRel, "not found")
 	}
 }
 
-// c20IndexUnderNameMatch: idx is a loop-carried phi whose only non-self, non-initial
-// inflow is the range index taken under Nodes[i].Step.Name == body.Step.
 func c20IndexUnderNameMatch(e *Env, idx ssa.Value) bool {
 	seen := map[ssa.Value]bool{}
 	ok := true
@@ -304,6 +405,22 @@ func c20IndexUnderNameMatch(e *Env, idx ssa.Value) bool {
 			ok = false
 		}
 	}
-	walk(idx, nil, 0)
-	return ok && found
+	// an index computed by a single-call-site helper (`i, found := indexOf(nodes, name)`): what it returns
+	start := []ssa.Value{idx}
+	if ex, isE := ir.Deep(idx).(*ssa.Extract); isE {
+		if c, isC := ex.Tuple.(*ssa.Call); isC {
+			if g := c.Call.StaticCallee(); g != nil && e.P.Funcs[g] && g.Blocks != nil && ir.UniqueSite(g) != nil {
+				start = nil
+				for _, b := range g.Blocks {
+					if rt, isR := b.Instrs[len(b.Instrs)-1].(*ssa.Return); isR && ex.Index < len(rt.Results) {
+						start = append(start, RetVals(rt, ex.Index)...)
+					}
+				}
+			}
+		}
+	}
+	for _, v := range start {
+		walk(v, nil, 0)
+	}
+	return ok && found && len(start) > 0
 }
